@@ -32,7 +32,7 @@ ANCHORS = [("leuvenmapmatching/matcher/base.py", "BaseMatching.update"),
            ("leuvenmapmatching/matcher/distance.py", "DistanceMatcher.logprob_trans")]
 FLOORS = {"optimum_comparisons_nontrivial": 500, "early_stops": 50, "no_start_candidate": 30, "dp_vs_bruteforce": 20,
           "family:simple": 300, "family:simple_nodes": 300, "family:distance": 300, "tightened_cases": 300,
-          "paths_rescored_by_reference": 1000, "threshold_hit_exactly": 20}
+          "paths_rescored_by_reference": 1000, "threshold_hit_exactly": 20, "reused_matcher_cases": 500}
 ASSUMPTIONS = ["the distance/projection of an observation on a state is taken from the map's own primitive so that threshold decisions are "
                "bit-identical (those primitives are judged by C05/C13); everything else (states, successors, scores, stop rule, DP) is independent",
                "cases in which a normalised probability falls within 1e-9 relative of min_prob_norm (not exactly on it) are skipped as borderline",
@@ -40,7 +40,16 @@ ASSUMPTIONS = ["the distance/projection of an observation on a state is taken fr
 
 
 def gen_case(rng, i, tier):
-    return mcase.gen_mcase(rng, ne=False, width=False, agb=False, tighten_p=0.4)
+    case = mcase.gen_mcase(rng, ne=False, width=False, agb=False, tighten_p=0.4)
+    if rng.random() < 0.3:
+        # the matcher object is reused: another trace on the same map is matched first (often stopping early),
+        # then the judged trace with a plain match() call.  The optimum does not depend on the matcher's past.
+        pre = gen.gen_trace(rng, case["map"], k=rng.randint(2, 7), kind=rng.choice(["walk", "outlier", "outlier", "sparse"]))
+        if rng.random() < 0.6 and len(pre) >= 2:
+            j = rng.randrange(1, len(pre))
+            pre[j] = [pre[j][0] + 9.0, pre[j][1] - 7.0]
+        case["pre_trace"] = pre
+    return case
 
 
 def close(a, b):
@@ -52,6 +61,11 @@ def run_real(case, fullscan=False):
     if fullscan:
         mcase.patch_fullscan(mp)
     mt = build.make_matcher(mp, case["cfg"])
+    if case.get("pre_trace"):
+        try:
+            mt.match(build.trace(case["pre_trace"]))
+        except Exception:
+            pass
     res = mt.match(build.trace(case["trace"]))
     return mp, mt, res
 
@@ -110,6 +124,10 @@ def check_case(ctx, case):
     ctx.count(f"family:{fam}")
     if case.get("tightened"):
         ctx.count("tightened_cases")
+    if case.get("pre_trace"):
+        ctx.count("reused_matcher_cases")
+        if mt.early_stop_idx is not None or True:
+            pass
     verdicts, stats = judge(case, mp, mt, res)
     if verdicts is None:
         ctx.count("skipped_borderline")
